@@ -141,6 +141,17 @@ def check(ctx):
             if ok:
                 good = True
                 ctx.ok('C12.3', ctx.site(col, bi), 'on contains(target, digest(self)) the result is extended with the path set that already includes digest(self); ' + info)
+    # loop form: for d in &path { result.insert(d.clone()) }  (every element, no skipping)
+    for bi, c, t in col.calls():
+        if good or c is None or c.name != 'insert' or not c.is_method('HashSet', 'insert'):
+            continue
+        a = tb.call_args(bi)
+        v = strip_sites(a[1])
+        if contains(a[0], lambda x: x == P4) and v[0] == 'elem' and extended(elem_source(v[1])) and loop_push_total(col, bi, None):
+            ok, info = guard_dominates(col, tb, [bi], memb, True)
+            if ok:
+                good = True
+                ctx.ok('C12.3', ctx.site(col, bi), 'on contains(target, digest(self)) every element of the path set that already includes digest(self) is inserted into the result; ' + info)
     if not good:
         ctx.fail('C12.3', ctx.site(col), 'collector does not add (current + digest(self)) to the result exactly when digest(self) is a target', key='C12.3|collector_extend')
     # remover
